@@ -430,7 +430,7 @@ var bell = []int{1, 1, 2, 5, 15, 52, 203, 877, 4140}
 // ---------------------------------------------------------------- Exec
 
 // caseLimit is the watchdog for one case (a case normally takes well under 100 ms).
-const caseLimit = 10 * time.Second
+const caseLimit = 30 * time.Second
 
 // bigCaseLimit: the same for the cases of the family fam=big (up to a minute of quadratic work on the linear-search sets).
 const bigCaseLimit = 90 * time.Second
